@@ -292,6 +292,21 @@ func c07(c *Ctx) {
 			kinds = append(kinds, "directed-ext")
 		}
 	}
+	// directed family: degenerate inputs — white space only (every kind, lengths up to and beyond the
+	// cutoff), a valid pointer wrapped in white space, the empty input
+	for _, ws := range []string{"\n", " ", "\r\n", "\t", "\v", "\f", "\n\n", " \n ", "\u0085", "\u00a0", "\u2028"} {
+		for _, k := range []int{1, 2, 7, 200, 1023, 1024, 1025, 3000} {
+			inputs = append(inputs, []byte(strings.Repeat(ws, k)))
+			kinds = append(kinds, "directed-blank")
+		}
+		valid := fmt.Sprintf("version https://git-lfs.github.com/spec/v1\noid sha256:%s\nsize 5\n", randOid(r))
+		for _, v := range []string{ws + valid, valid + ws, ws + valid + ws, strings.Replace(valid, "\n", "\n"+ws, 1)} {
+			inputs = append(inputs, []byte(v))
+			kinds = append(kinds, "directed-blank")
+		}
+	}
+	inputs = append(inputs, []byte{})
+	kinds = append(kinds, "directed-blank")
 	var ptrs []*lfs.Pointer
 	for i := 0; i < n; i++ {
 		k := r.Intn(10)
